@@ -457,10 +457,19 @@ func (e *Exec) callFunc(st *State, call *ast.CallExpr, fn *types.Func, recv Valu
 	info := e.info()
 	rt := info.TypeOf(call)
 	origin := fn.Origin()
+	if !inModule(origin.Pkg()) {
+		if v, ok := e.libBuiltin(st, call, fn, recv, args); ok {
+			return v
+		}
+	}
 	c := e.prog.contractFor(origin)
 	name := libKey(origin)
 	if c == nil {
 		if inModule(origin.Pkg()) {
+			if e.prog.specs.NoEffect[name] {
+				e.calleesUsed[name+" (no effect, module function trusted)"] = true
+				return e.freshResults(st, rt, "r")
+			}
 			panic(unsupported("callee without contract: " + name))
 		}
 		if e.prog.specs.NoEffect[name] || e.prog.specs.NoEffect[origin.Pkg().Name()+".*"] {
@@ -490,7 +499,59 @@ func (e *Exec) callFunc(st *State, call *ast.CallExpr, fn *types.Func, recv Valu
 			args = append(append([]Value{}, args[:np-1]...), packed)
 		}
 	}
-	return e.applyContract(st, c, sig, recv, args, rt, call, name)
+	res := e.applyContract(st, c, sig, recv, args, rt, call, name)
+	if c.Lib {
+		for _, a := range args {
+			if clo, ok := a.(ClosureVal); ok {
+				e.runCallback(st, clo, call)
+			}
+		}
+	}
+	return res
+}
+
+// runCallback models a library function that may call a function literal any number of times:
+// the variables the literal assigns are havocked in the caller's state, and its body is executed
+// once from an arbitrary such state so that its safety obligations are generated.
+func (e *Exec) runCallback(st *State, clo ClosureVal, at ast.Node) {
+	if c, _ := e.prog.closureContract(clo.Lit); c != nil {
+		return // verified separately against its own contract; pure by construction of apply()
+	}
+	fp := &footprint{cells: map[*Cell]bool{}, reslice: map[*Cell]bool{}, visiting: map[ast.Node]bool{}}
+	info := e.info()
+	fp.roots = append(fp.roots, footRoot{clo.Lit.Body, info})
+	e.scanAssigned(st, clo.Lit.Body, fp, info)
+	e.scanWrites(st, clo.Lit.Body, fp, info)
+	// parameters and locals of the literal are not part of the caller's state
+	inside := map[*Cell]bool{}
+	ast.Inspect(clo.Lit, func(n ast.Node) bool {
+		if id, ok := n.(*ast.Ident); ok {
+			if obj := info.Defs[id]; obj != nil {
+				if c, ok := e.cells[obj]; ok {
+					inside[c] = true
+				}
+			}
+		}
+		return true
+	})
+	e.havocTargets(st, fp.targets)
+	for c := range fp.cells {
+		if inside[c] {
+			continue
+		}
+		if _, bound := st.store[c]; bound {
+			st.store[c] = e.symbolicValue(st, c.Typ, c.Name)
+		}
+	}
+	// one symbolic execution of the body for its obligations
+	tmp := st.clone()
+	sig := clo.Typ.Underlying().(*types.Signature)
+	var args []Value
+	for i := 0; i < sig.Params().Len(); i++ {
+		args = append(args, e.symbolicValue(tmp, sig.Params().At(i).Type(), "cb"))
+	}
+	e.inlineClosure(tmp, clo, args, at)
+	e.assumptions["a library function given a function literal may call it any number of times: assigned captured variables are havocked, the body is checked once from an arbitrary state"] = true
 }
 
 func (e *Exec) freshResults(st *State, rt types.Type, base string) Value {
@@ -1134,9 +1195,19 @@ func (e *Exec) convert(st *State, v Value, to types.Type, at ast.Node) Value {
 	panic(unsupported(fmt.Sprintf("conversion from %v to %s", from, to)))
 }
 
-// truncOK: conversions that the code relies on to truncate are listed per function by the
-// contract ("wraps" not yet needed).
-func (e *Exec) truncOK(at ast.Node) bool { return false }
+// truncOK: conversions/operations whose wrap-around the contract declares intended ("wrapok <text>").
+func (e *Exec) truncOK(at ast.Node) bool {
+	if e.contract == nil || at == nil {
+		return false
+	}
+	txt := strings.Join(strings.Fields(e.nodeText(at)), "")
+	for _, w := range e.contract.WrapOK {
+		if w == txt {
+			return true
+		}
+	}
+	return false
+}
 
 var _ = token.ADD
 
